@@ -20,7 +20,74 @@ def C(name, test, tmod, **kw):
     return d
 
 
+def R(proto, eng, **kw):
+    """conformance job for one raw / cooked protocol over the RawSock engine `eng`"""
+    d = C('raw_' + proto, 'TestRaw', 'TraceRaw_' + eng, env={'VERIF_RAW_PROTOS': proto}, n={'quick': 25, 'thorough': 400})
+    d.update(kw)
+    return d
+
+
+def push_sq0(job, ev, ctx):
+    """C02 'Send completes ... for every accepted queue-length setting' on PUSH with WriteQLen 0.
+    (1) TLC on the specification (which models the scheduler as the code has it) violates NoStuckSend:
+    a lead.  (2) The real sockets are driven through the scenario; the traces must CONFORM to the
+    specification (accepted without the property) and are then validated WITH the property: a
+    rejection is the property failing on the real code."""
+    import os, shutil
+    api = ctx['api']
+    viol = []
+    r = api['tlc']('MC_RawSock', 'Raw_xpush_sq0.cfg', workers=8, timeout=600)
+    ev['tlc_runs'].append({'module': 'MC_RawSock', 'cfg': 'Raw_xpush_sq0.cfg', 'generated': r.get('generated'),
+                           'distinct': r.get('distinct'), 'violated': r['violated'], 'wall_s': r['wall_s']})
+    ev['states'] += r.get('distinct', 0)
+    ev['transitions'] += r.get('generated', 0)
+    outdir = '%s/out/%s-pushsq0' % (api['BUILD'], ctx['pid'])
+    shutil.rmtree(outdir, ignore_errors=True)
+    d = api['drive']('TestRawPushSQ0', outdir, ctx['tier'], ctx['seed'])
+    tf = outdir + '/raw_pushsq0.ndjson'
+    if d['rc'] != 0 or not os.path.exists(tf):
+        raise api['Infra']('TestRawPushSQ0 failed:\n' + d['out'][-2000:])
+    traces = api['load_traces'](tf)
+    ok, hw, n, st, tn = api['validate']('TraceRawConf_xpush', tf)
+    ev['trace_states'] += st
+    ev['evaluations'] += len(traces)
+    ev['trace_events'] += sum(len(t['lines']) for t in traces)
+    if not ok:
+        viol.append({'kind': 'reject', 'label': 'pushsq0', 'key': 'reject pushsq0 conformance',
+                     'what': 'PUSH WriteQLen=0 traces are not behaviours of RawSock.tla (line %d)' % hw})
+        return viol
+    ev['traces_validated_against_impl'] += len(traces)
+    ok2, hw2, n2, st2, tn2 = api['validate']('TraceRaw_xpush', tf)
+    ev['trace_states'] += st2
+    if not ok2:
+        viol.append({'kind': 'property', 'label': 'pushsq0', 'key': 'NoStuckSend xpush sq=0',
+                     'what': 'PUSH/XPUSH with WriteQLen=0: Send never completes although a connected peer is idle '
+                             '(NoStuckSend fails on conforming traces of the real socket; TLC lead: %s)' % ','.join(r['violated'])})
+    ev['drivers'].append({'test': 'TestRawPushSQ0', 'scenarios': len(traces), 'validated': len(traces), 'wall_s': d['wall_s'],
+                          'trace_module': 'TraceRawConf_xpush + TraceRaw_xpush'})
+    return viol
+
+
 CHECKS = {
+    'C02': {
+        'level': 'model_checking',
+        'jobs': [
+            T('MC_RawSock', 'Raw_xpair.cfg'), T('MC_RawSock', 'Raw_xpair_sq0.cfg'), T('MC_RawSock', 'Raw_xpush.cfg'),
+            T('MC_RawSock', 'Raw_xpush_fnp.cfg'), T('MC_RawSock', 'Raw_xpull.cfg'),
+            R('xpair', 'xpair'), R('pair', 'xpair'), R('xpair1', 'xpair1'), R('pair1', 'xpair1'),
+            R('xpush', 'xpush'), R('push', 'xpush'), R('xpull', 'xpull'), R('pull', 'xpull'),
+            {'type': 'custom', 'name': 'pushsq0', 'fn': push_sq0},
+        ],
+        'assumptions': ASSUME_COMMON,
+    },
+    'C08': {
+        'level': 'model_checking',
+        'jobs': [
+            T('MC_RawSock', 'Raw_xbus.cfg'), T('MC_RawSock', 'Raw_xstar.cfg'),
+            R('xbus', 'xbus'), R('bus', 'xbus'), R('xstar', 'xstar'), R('star', 'xstar'),
+        ],
+        'assumptions': ASSUME_COMMON,
+    },
     'C03': {
         'level': 'model_checking',
         'jobs': [
@@ -51,6 +118,8 @@ CHECKS = {
             T('MC_RepLike', 'Respondent_plain.cfg', tiers=('thorough',)),
             C('rep', 'TestRep', 'TraceRep', n={'quick': 100, 'thorough': 1200}),
             C('respondent', 'TestRespondent', 'TraceRespondent', n={'quick': 100, 'thorough': 1200}),
+            T('MC_RawSock', 'Raw_xrep.cfg'), T('MC_RawSock', 'Raw_xrespondent.cfg'),
+            R('xrep', 'xrep'), R('xrespondent', 'xrespondent'),
         ],
         'assumptions': ASSUME_COMMON,
     },
@@ -60,6 +129,8 @@ CHECKS = {
             T('MC_Sub', 'Sub_quick.cfg'),
             T('MC_Sub', 'Sub_full.cfg', tiers=('thorough',)),
             C('sub', 'TestSub', 'TraceSub', n={'quick': 120, 'thorough': 1500}),
+            T('MC_RawSock', 'Raw_xpub.cfg'), T('MC_RawSock', 'Raw_xsub.cfg'),
+            R('xpub', 'xpub'), R('pub', 'xpub'), R('xsub', 'xsub'),
         ],
         'assumptions': ASSUME_COMMON,
     },
